@@ -123,9 +123,9 @@ CLAIMED.update({
 
 CLAIMED.update({
   "C13": dict(
-    text="The width clause only (word-wrapping and hard-wrapping yield lines of at most the width), decided by static inference of an inductive loop invariant: ansi.Wrap and ansi.DumbWrap are one loop over the matches of ansi.expand; every string is abstracted to an upper bound of its number of visible characters (of the whole string, or of its last line for an accumulator that receives line feeds; strings.Builder accumulators are followed through their Write/String/Reset calls), the state of the loop is the phis of its header (and the builders), and the strongest inductive invariant inside a template family of linear facts (n >= 0, n <= w, sums <= w, `m = 0 or sum <= w`, visible(s) <= n over the counters n, m, the strings s and the width w) is computed Houdini style over all acyclic header-to-header paths, case-splitting on disjunctive facts and on != tests, with exact linear arithmetic (simplex over the rationals). From that invariant and the branch facts of each path it is proved that every element appended to the slice Wrap joins with line feeds, and DumbWrap's accumulator at every point where a character or line feed is added, has at most `width` visible characters, for every text and every width >= 1; ansi.expand's pattern is checked with regexp/syntax to consume exactly one character outside escape sequences per match, and expand to return all matches. Content preservation, order, styling, word-breaking policy and the shapes produced by Pad/Indent/Snip are NOT claimed.",
-    note="Assumed: width >= 1 (the property's precondition); regexp semantics of FindAllStringSubmatch; a visible character is one match of ansi.expand. Not decided: that every non-whitespace character is kept with its styling in order, that line breaks between visible characters survive, that words are split only when longer than a line, Pad/Indent/Snip.",
-    technique="static inference of an inductive loop invariant (Houdini over a linear template family, path enumeration with branch facts, exact LP) in a visible-width abstraction of strings + regexp/syntax shape check",
+    text="Width clauses, the padding and indenting shapes and content preservation of the simple layout loops. Word-wrapping and hard-wrapping yield lines of at most the width: decided by static inference of an inductive loop invariant: ansi.Wrap and ansi.DumbWrap are one loop over the matches of ansi.expand; every string is abstracted to an upper bound of its number of visible characters (of the whole string, or of its last line for an accumulator that receives line feeds; strings.Builder accumulators are followed through their Write/String/Reset calls), the state of the loop is the phis of its header (and the builders), and the strongest inductive invariant inside a template family of linear facts (n >= 0, n <= w, sums <= w, `m = 0 or sum <= w`, visible(s) <= n over the counters n, m, the strings s and the width w) is computed Houdini style over all acyclic header-to-header paths, case-splitting on disjunctive facts and on != tests, with exact linear arithmetic (simplex over the rationals). From that invariant and the branch facts of each path it is proved that every element appended to the slice Wrap joins with line feeds, and DumbWrap's accumulator at every point where a character or line feed is added, has at most `width` visible characters, for every text and every width >= 1; ansi.expand's pattern is checked with regexp/syntax to consume exactly one character outside escape sequences per match, and expand to return all matches. With lower bounds next to the upper ones the same engine proves that every line ansi.Pad completes (and the last one it returns) has at least `length` visible characters, exactly `length` where padding was added. Content clauses of the three simple loops, by path enumeration: DumbWrap, Pad and Indent visit the matches of expand(text) in ascending order and on every acyclic path round the loop append to their one accumulator, at its end, inserted material and the content of the current match exactly once (the whole match with its escape sequences when the character is no line feed, a line feed when it is), so every character and every line break is kept in order; every line feed Indent emits is directly followed by the prefix, and the first line gets it exactly when asked. Content and break placement of Wrap (which buffers words and drops blanks at breaks by design) and Snip are NOT claimed.",
+    note="Assumed: width >= 1 (the property's precondition); regexp semantics of FindAllStringSubmatch; a visible character is one match of ansi.expand. Not decided: for ansi.Wrap, that every non-whitespace character is kept with its styling in order, that line breaks between visible characters survive and that words are split only when longer than a line; ansi.Snip.",
+    technique="static inference of an inductive loop invariant (Houdini over a linear template family, path enumeration with branch facts, exact LP) in a visible-width abstraction of strings (upper and lower bounds) + per-path append-sequence check (content) + regexp/syntax shape check",
     ref="DESIGN.md §4 C13"),
 })
 
